@@ -13,7 +13,7 @@
    rewrite relation; the skip and squash lemmas by induction on the input), no axioms. *)
 From Coq Require Import List NArith.
 Import ListNotations.
-From PP Require Import Base Syntax Spec SpecSyn SpecMono SpecLaws SpecEquiv Opt OptProof OptSkip Interp InterpProof Gen GenProof OptPass OptPassProof.
+From PP Require Import Base Syntax Spec SpecSyn SpecMono SpecLaws SpecEquiv Opt OptProof OptSkip Interp InterpProof Gen GenProof OptPass OptPassProof OptPassInline OptPassCompose.
 
 (* `req`: same constructor; on success the same tree and the same final position, stack and tags;
    failure with failure; undefined rule with undefined rule *)
@@ -140,6 +140,36 @@ Theorem C02_unroll_pass_preserves_meaning : forall bi g,
        exists f', req (parse g f' rule input k) r).
 Proof. exact pass_unroll_sound. Qed.
 
+(* ---- the inline_builtin PASS itself: map_top_down (the node first, then the children of the RESULT, so
+   built-ins nested in the body of a built-in are inlined too; fuel, None when exhausted) with
+   inliners.inline_builtin. Whenever the model returns a table (it always does within the fuel the driver gives
+   it: tie), that table is accepted by the validator and parses like the original. builtins_plain: the
+   BuiltInRule entries other than EOI are plain silent rules (the exporter enforces it). *)
+Theorem C02_inline_builtin_pass_output_is_validated : forall bi fuel g g',
+  names_nodup g = true -> defined_in g SKIP_ID = false -> builtins_plain bi g = true ->
+  gdepth g <= 2 * fuel -> pass_inline_builtin bi fuel g = Some g' ->
+  ochk_grammar g g' (2 * fuel) = true.
+Proof. exact pass_inline_builtin_validated. Qed.
+
+Theorem C02_inline_builtin_pass_preserves_meaning : forall bi fuel g g',
+  names_nodup g = true -> defined_in g SKIP_ID = false -> builtins_plain bi g = true ->
+  gdepth g <= 2 * fuel -> pass_inline_builtin bi fuel g = Some g' ->
+  forall rule input k, defined_in g rule = true ->
+    (forall f r, parse g f rule input k = r -> r <> Fuel -> exists f', req (parse g' f' rule input k) r) /\
+    (forall f r, parse g' f rule input k = r -> r <> Fuel -> exists f', req (parse g f' rule input k) r).
+Proof. exact pass_inline_builtin_sound. Qed.
+
+(* ---- any subset, order or repetition of the two modelled passes ----
+   `psteps bi g g'`: g' is obtained from g by any finite sequence of unroll / inline_builtin steps (each step of the
+   top-down pass with any fuel that lets it finish and covers the depth of the table). `dom`: the hypotheses of the
+   two pass theorems; every step preserves them (OptPassCompose.pstep_dom), and the equivalence is transitive. *)
+Theorem C02_modelled_passes_compose : forall bi g g',
+  psteps bi g g' -> dom bi g ->
+  forall rule input k, defined_in g rule = true ->
+    (forall f r, parse g f rule input k = r -> r <> Fuel -> exists f', req (parse g' f' rule input k) r) /\
+    (forall f r, parse g' f rule input k = r -> r <> Fuel -> exists f', req (parse g f' rule input k) r).
+Proof. exact psteps_geq. Qed.
+
 (* non-vacuity: the checker accepts a real optimizer output (unroll + squash + fused SKIP rule) and
    rejects the reordering of "a" | "ab" and a skip rewrite where trivia applies *)
 Definition R n sil k b := {| r_name := n; r_silent := sil; r_kind := k; r_body := b |}.
@@ -174,7 +204,45 @@ Example unroll_pass_rewrites :
      R 5 true KAtomic (EAlt [ESeq [ERange 48 57; EStar (ERange 48 57)]; ESeq [EOpt EAny; EOpt EAny]])].
 Proof. vm_compute. repeat split; reflexivity. Qed.
 
+(* a built-in (10) whose body mentions another built-in (11), used under a repetition and with a tag *)
+Example inline_builtin_pass_rewrites :
+  let g := [R 4 false KNormal (ESeq [EStar (ERef 10 None); ERef 11 (Some 0%N); ERef 3 None]);
+            R 10 true KNormal (EAlt [ERef 11 None; EStr [95%N]]);
+            R 11 true KNormal (ERange 48 57);
+            R 3 false KNormal EEoi] in
+  let bi := fun n => orb (N.leb 10 n) (N.eqb n 3) in
+  names_nodup g = true /\ defined_in g SKIP_ID = false /\ builtins_plain bi g = true /\ (gdepth g <= 2 * 10)%nat /\
+  pass_inline_builtin bi 10 g =
+    Some [R 4 false KNormal (ESeq [EStar (EAlt [ERange 48 57; EStr [95%N]]); ERef 11 (Some 0%N); ERef 3 None]);
+          R 10 true KNormal (EAlt [ERef 11 None; EStr [95%N]]);
+          R 11 true KNormal (ERange 48 57);
+          R 3 false KNormal EEoi].
+Proof. vm_compute. repeat split; try reflexivity. repeat constructor. Qed.
+
+(* unroll, then inline built-ins, then unroll again, on a table that meets `dom` *)
+Example passes_compose_nonvacuous :
+  let g := [R 4 false KNormal (ESeq [EPlus (ERef 10 None); ERepN (EGrp (ERef 11 None) None) 2]);
+            R 10 true KNormal (EAlt [ERef 11 None; EStr [95%N]]);
+            R 11 true KNormal (ERange 48 57)] in
+  let bi := fun n => N.leb 10 n in
+  dom bi g /\
+  exists g1 g2, pass_inline_builtin bi 10 (pass_unroll bi g) = Some g1 /\ g2 = pass_unroll bi g1 /\
+    psteps bi g g2 /\
+    lookup g2 4 = Some (R 4 false KNormal
+      (ESeq [ESeq [EAlt [ERange 48 57; EStr [95%N]]; EStar (EAlt [ERange 48 57; EStr [95%N]])];
+             ESeq [EGrp (ERange 48 57) None; EGrp (ERange 48 57) None]])).
+Proof.
+  split; [repeat split; vm_compute; reflexivity|].
+  eexists. eexists. split; [vm_compute; reflexivity|]. split; [reflexivity|]. split; [|vm_compute; reflexivity].
+  eapply PSS_cons; [apply PS_unroll|].
+  eapply PSS_cons; [eapply (PS_inline _ _ 10); [vm_compute; repeat constructor|vm_compute; reflexivity]|].
+  eapply PSS_cons; [apply PS_unroll|]. apply PSS_nil.
+Qed.
+
 Print Assumptions C02_validated_optimization_preserves_meaning.
+Print Assumptions C02_modelled_passes_compose.
+Print Assumptions C02_inline_builtin_pass_output_is_validated.
+Print Assumptions C02_inline_builtin_pass_preserves_meaning.
 Print Assumptions C02_unroll_pass_output_is_validated.
 Print Assumptions C02_unroll_pass_preserves_meaning.
 Print Assumptions C02_interpreter_optimized_equals_unoptimized.
